@@ -83,6 +83,26 @@ theorem step_spec (b : Bytes) :
     | (some (.error err), s) => s = [] ∧ ErrAt err b :=
   next_spec b
 
+/-- completeness of one call: whenever the slice starts with the wire form of an in-range element,
+    `next` yields that element (holes compacted) and the state is what follows it — a well-formed
+    option is never reported as an error, whatever comes behind it. -/
+theorem step_complete (e : Elem) (t : Bytes) (h : WF e) :
+    next (wire e ++ t) = (some (.ok (normSack e)), t) :=
+  next_wire e t h
+
+/-- the tiling is unique: a byte string starts with the wire form of at most one in-range element
+    without holes, so "the elements that tile a prefix" are determined by the bytes. -/
+theorem wire_unique (e e' : Elem) (t t' : Bytes) (h : WF e) (h' : WF e')
+    (hn : normSack e = e) (hn' : normSack e' = e') (heq : wire e ++ t = wire e' ++ t') :
+    e = e' ∧ t = t' := by
+  have h1 := next_wire e t h
+  have h2 := next_wire e' t' h'
+  rw [heq, h2, hn, hn'] at h1
+  injection h1 with ha hb
+  injection ha with ha
+  injection ha with ha
+  exact ⟨ha.symm, hb.symm⟩
+
 /-- tiling: for EVERY byte string `b` there are elements `els` and a rest such that
     `b = wire(els) ++ rest`; the iterator yields exactly `els` (all `Ok`, in range, without holes) and
     then either stops because the rest is empty or starts with END, or yields one error — as its
